@@ -17,10 +17,10 @@ CUT_MENU = [-10.0, -1.0, 0.0, 0.25, 0.5, 1.0, 2.0, 10.0]
 SORTED_CUTS = {1: [0.4], 2: [-1.1, 1.3], 3: [-1.6, 0.2, 1.9]}
 
 
-def _fit(d, mask, n_cuts, temperature, seed, gemini="mmd_ova", batch_size=None):
+def _fit(d, mask, n_cuts, temperature, seed, gemini="mmd_ova", batch_size=None, n=7):
     from gemclus.tree import Douglas
     rs = np.random.RandomState(95_000 + seed + d)
-    X = rs.normal(size=(7, d))
+    X = rs.normal(size=(n, d))
     kw = dict(n_clusters=3, gemini=gemini, n_cuts=n_cuts, temperature=temperature, max_iter=2, random_state=seed, learning_rate=0.05, batch_size=batch_size)
     if mask is not None:
         kw["feature_mask"] = np.array(mask, dtype=bool)
@@ -150,10 +150,11 @@ def douglas_case(case):
 def wide_mask_case(case):
     """Wider data (5..8 features): ALL masks with at most 4 used features - unevenly spaced, non-contiguous, any position.  Masked columns are
     inert, every used column matters (a move across all cut points changes the memberships), leaves and cut points sit on the used features."""
-    d, mask, n_cuts, seed = case
-    model, X = _fit(d, mask, n_cuts, 0.1, seed)
-    used = [i for i in range(d) if mask[i]]
-    where = dict(d=d, mask=list(map(int, mask)), n_cuts=n_cuts, temperature=0.1, batch_size=None)
+    d, mask, n_cuts, seed = case[:4]
+    n_rows = case[4] if len(case) > 4 else 7
+    model, X = _fit(d, mask, n_cuts, 0.1, seed, n=n_rows)
+    used = [i for i in range(d) if (mask is None or mask[i])]          # the documented default (None): every feature is used
+    where = dict(d=d, mask=None if mask is None else list(map(int, mask)), n_cuts=n_cuts, temperature=0.1, batch_size=None, n=n_rows)
     v = []
     if [f for f, _ in model.cut_points_list_] != used or model.leaf_scores_.shape[0] != (n_cuts + 1) ** len(used):
         v.append(violation("cut_points_not_on_the_used_features", {"features": [f for f, _ in model.cut_points_list_], "used": used}, **where))
@@ -259,6 +260,7 @@ def explorers(tier, seed):
             for used in itertools.combinations(range(d), k):
                 if (n_c := 1) and (thorough or d <= 7 or k <= 3):
                     c3.append((d, tuple(i in used for i in range(d)), 1 if k > 2 else 2, seed))
+    c3 += [(d, None, 1, seed, n_) for d in (2, 3, 4, 5, 6) for n_ in sorted({3, 4, max(3, d), d + 1, 9})]       # default mask, also with fewer samples than features
     return [
         Explorer("wide_masks", "props.c15", "wide_mask_case", c3, chunk=8, floor=100,
                  rule="d in 5..8 x ALL feature masks with <=4 used features (any spacing): cut points and leaves on the used features, masked columns inert under "
